@@ -313,6 +313,18 @@ def reload_stage(ctx, rng, first_id):
             same.setdefault((area["kind"], str(area["extent"])), []).append(area)
         if len(cases) % 2 and not any(len(group) > 1 for group in same.values()):
             continue      # every other record holds areas of one kind with equal coordinates
+        if len(cases) % 3 == 0 and uni["circ"] and uni["L"] >= 12:
+            # in front of the origin two areas of one kind that start at the same base: one ends before the origin, the
+            # other runs over it (their order in a region file is not the order of that file's coordinates alone)
+            length = uni["L"]
+            start = rng.randrange(length - 6, length - 4)
+            over = {"parts": [[start, length], [0, rng.randrange(1, 3)]], "strand": 1}
+            short = {"parts": [[start, length - 1]], "strand": 1}
+            if rng.random() < 0.5:
+                uni["areas"] += [{"kind": "sub", "core": ext, "extent": ext, "product": "sub", "pay": 0} for ext in (short, over)]
+            else:
+                uni["areas"] += [{"kind": "proto", "core": {"parts": [[start + 1 + i, start + 2 + i]], "strand": 1}, "extent": ext,
+                                  "product": "ab"[i], "pay": 0} for i, ext in enumerate((short, over))]
         cases.append({"id": first_id + len(cases), "uni": uni, "hist": persist.pipeline_history(rng, uni), "seed": 2000 + ctx.seed,
                       "sampled": True})
     events = [ev for sub in pmap(c10.observe_many, chunks(cases, CPUS * 2)) for ev in sub]
@@ -335,7 +347,27 @@ def reload_stage(ctx, rng, first_id):
             kept.append(failure)
     ctx.failures[before:] = kept
     ctx.notes["reloaded_records"] = len(shipped)
-    return len(shipped)
+    # ... and in the region files: the numbers written there identify the same areas once such a file is read (of the
+    # verdicts on an extract only the clauses on numbers and cross references are kept, the rest is C12's)
+    from . import c12  # pylint: disable=import-outside-toplevel
+    by_id, extracts = {}, []
+    for case, events in zip(cases, [evs for sub in pmap(c12.observe_many, chunks(cases, CPUS * 2)) for evs in sub]):
+        for event in events:
+            if event["build"]:
+                continue
+            event["id"] = first_id + 10 ** 6 + event["id"] - case["id"] * c12.STRIDE + (case["id"] - first_id) * c12.STRIDE
+            by_id[event["id"]] = c12.describe(case, event, persist)
+            extracts.append(event)
+    before = len(ctx.failures)
+    ctx.validate("Persist_Trace", extracts, by_id, min_per_shard=40)
+    kept = []
+    for failure in ctx.failures[before:]:
+        if failure["clause"] in ("candidates_keep_their_protoclusters", "cross_references_resolve", "region_has_the_same_members"):
+            failure["op"] = "reload_" + failure["op"]
+            kept.append(failure)
+    ctx.failures[before:] = kept
+    ctx.notes["reloaded_region_files"] = len(extracts)
+    return len(shipped) + len(extracts)
 
 
 def run(ctx):
@@ -425,6 +457,15 @@ def run(ctx):
 
 
 def replay(ctx, record):
+    if record["op"] == "reload_extract":
+        from . import c12  # pylint: disable=import-outside-toplevel
+        from .. import persist  # pylint: disable=import-outside-toplevel
+        case = {"id": 0, "uni": record["input"]["uni"], "hist": record["input"]["hist"], "seed": record["input"].get("seed", 0),
+                "sampled": True}
+        events = [ev for ev in c12.observe(case) if not ev["build"] and ev["region"] == record["input"]["region"]]
+        ctx.validate("Persist_Trace", events, {ev["id"]: c12.describe(case, ev, persist) for ev in events})
+        ctx.failures = [dict(f, op="reload_" + f["op"]) for f in ctx.failures if f["clause"] == record["clause"]]
+        return
     if record["op"].startswith("reload_"):
         from . import c10  # pylint: disable=import-outside-toplevel
         case = {"id": 0, "uni": record["input"]["uni"], "hist": record["input"]["hist"], "seed": record["input"].get("seed", 0)}
